@@ -299,28 +299,23 @@ fn run_case(case: &Value, big: &BigInt, neg_as_p: bool) -> Outcome {
             MaybeRelocatable::RelocatableValue(r) => r,
             _ => unreachable!(),
         };
-        let mut need: Vec<(Relocatable, u32)> = vec![];
-        for k in 0..8u32 {
-            need.push(((st + k as usize).unwrap(), 0x1000_0000 + 17 * k));
+        // array contents are a function of the address, so overlapping state / message arrays agree
+        let val_at = |a: Relocatable| -> u32 { 0x1000_0000u32 + (a.segment_index as u32) * 0x10000 + (a.offset as u32) * 17 };
+        let mut need: Vec<Relocatable> = vec![];
+        for k in 0..8usize {
+            need.push((st + k).unwrap());
         }
-        for k in 0..16u32 {
-            need.push(((msg + k as usize).unwrap(), 0x2000_0000 + 31 * k));
+        for k in 0..16usize {
+            need.push((msg + k).unwrap());
         }
-        // consistent fill: the same address must get the same value; conflicts => skip
         let mut fill: BTreeMap<(isize, usize), u32> = BTreeMap::new();
-        for (a, v) in &need {
+        for a in &need {
             let key = (a.segment_index, a.offset);
             if known.contains_key(&key) || (a.segment_index == pc.segment_index && (a.offset == pc.offset)) {
                 out.skipped = Some("blake_array_overlaps_case_cells");
                 return out;
             }
-            if let Some(old) = fill.get(&key) {
-                if old != v {
-                    out.skipped = Some("blake_arrays_overlap");
-                    return out;
-                }
-            }
-            fill.insert(key, *v);
+            fill.insert(key, val_at(*a));
         }
         for k in 0..8usize {
             let a = (outp + k).unwrap();
